@@ -162,6 +162,7 @@ def lib():
     import sdc11073.definitions_sdc  # noqa: F401
     from sdc11073.httpserver import compression, httpreader, httprequesthandler
     from sdc11073.pysoap import soapclient
+    httprequesthandler.DispatchingRequestHandler.log_message = lambda *a, **k: None   # http.server prints rejected request lines to stderr
     return types.SimpleNamespace(comp=compression, rd=httpreader, rh=httprequesthandler, sc=soapclient,
                                  CH=compression.CompressionHandler, HR=httpreader.HTTPReader)
 
